@@ -4,7 +4,7 @@ from __future__ import annotations
 import itertools
 
 import lang
-from chartgen import outcome, section
+from chartgen import outcome, section, wide_chars
 from common import cps, rng
 from extract_lang import FIELDS
 
@@ -106,6 +106,10 @@ def run(ctx):
             combos = r.sample(combos, 120)
         for t in combos:
             bodies.append(["Resolution = 192", 'Charter = "' + "".join(t) + '"', "Offset = 7"])
+    # "inner text kept verbatim": every special code point and seeded ones from the whole code space inside string values
+    for c in wide_chars(r, ctx.pick(30, 1500)):
+        f1, f2 = r.sample(STR_FIELDS, 2)
+        bodies.append(["Resolution = 192", f'{PASCAL[f1]} = "{c}"', f'{PASCAL[f2]} = "a{c}b{c}"'])
     for k, b in enumerate(bodies):
         recs.append(observe(f"s{k}", b))
         ctx.evaluations += 1
